@@ -348,3 +348,80 @@ func staticCase(main []member, variants [][]member, inherit bool, extra map[stri
 }
 
 var _ = strings.TrimSpace
+
+// ---------- identifiers that are unusual but legal ----------
+
+// idColumns: which columns hold identifiers of which kind.
+var idColumns = map[string]map[string]string{
+	"agency.txt":         {"agency_id": "agency"},
+	"routes.txt":         {"route_id": "route", "agency_id": "agency"},
+	"stops.txt":          {"stop_id": "stop", "parent_station": "stop"},
+	"transfers.txt":      {"from_stop_id": "stop", "to_stop_id": "stop"},
+	"calendar.txt":       {"service_id": "service"},
+	"calendar_dates.txt": {"service_id": "service"},
+	"shapes.txt":         {"shape_id": "shape"},
+	"trips.txt":          {"route_id": "route", "service_id": "service", "trip_id": "trip", "shape_id": "shape"},
+	"frequencies.txt":    {"trip_id": "trip"},
+	"stop_times.txt":     {"trip_id": "trip", "stop_id": "stop"},
+}
+
+// oddIDs are identifiers a feed may legally use: with inner, leading and trailing blanks, differing only in case or
+// in a blank, looking like numbers, booleans or nulls, containing the CSV metacharacters (the writer quotes them),
+// multi-byte, long.
+var oddIDs = []string{"a b", " lead", "trail ", "s0", "S0", "S0 ", "0", "00", "-1", "1e3", "NULL", "nil", "true", "ü", "日本/駅", "a,b", `q"q`, "x;y", "'", "#", "%41",
+	"<id>", "a&b", "id+1", "\\n", "tab\tid", strings.Repeat("long", 60), "..", "*", "A", "a"}
+
+// renameIDs maps every identifier of the feed, kind by kind and injectively, to an unusual one (blank stays blank,
+// so do the values that deliberately name nothing).
+func renameIDs(r *Rng, f *feed) {
+	maps := map[string]map[string]string{}
+	used := map[string]map[string]bool{}
+	perm := r.Perm(len(oddIDs))
+	next := map[string]int{}
+	for file, cols := range idColumns {
+		t := f.tables[file]
+		if t == nil {
+			continue
+		}
+		for ci, h := range t.header {
+			kind, ok := cols[h]
+			if !ok {
+				continue
+			}
+			if maps[kind] == nil {
+				maps[kind], used[kind] = map[string]string{}, map[string]bool{}
+			}
+			for _, row := range t.rows {
+				v := row[ci]
+				if v == "" || v == "NOPE" {
+					continue
+				}
+				if _, ok := maps[kind][v]; !ok {
+					nv := oddIDs[perm[next[kind]%len(perm)]]
+					if next[kind] >= len(perm) {
+						nv = fmt.Sprintf("%s~%d", nv, next[kind])
+					}
+					next[kind]++
+					maps[kind][v] = nv
+				}
+			}
+		}
+	}
+	for file, cols := range idColumns {
+		t := f.tables[file]
+		if t == nil {
+			continue
+		}
+		for ci, h := range t.header {
+			kind, ok := cols[h]
+			if !ok {
+				continue
+			}
+			for _, row := range t.rows {
+				if nv, ok := maps[kind][row[ci]]; ok {
+					row[ci] = nv
+				}
+			}
+		}
+	}
+}
